@@ -521,6 +521,24 @@ def handle (line : String) : String :=
           if all.isEmpty then "OK" else String.intercalate " ; " all
         | _ => "SPEC C01:no-result(" ++ goRes ++ ")"
       | _, _ => "BAD args"
+    | ["trace", _hx, _lim] =>
+      match goRes.splitOn " " with
+      | [verd, lg, _chain] =>
+        let T := Gen.builtin
+        let flat := T.flatten
+        let vs := verd.toList
+        if vs.length != flat.length then s!"DIFF tree-size model={flat.length} go={vs.length}" else
+        let idx := flat.zip vs
+        let acc : Info → Bool := fun i =>
+          match idx.find? (fun p => p.1.name == i.name) with
+          | some (_, c) => c == 'T'
+          | none => false
+        let names := flat.map (·.name)
+        -- the model's instrumented walk over the real verdicts
+        let mt := (T.walkTrace acc).map fun (i, v) => s!"{names.idxOf i.name}:{if v then "T" else "F"}"
+        let m := if mt.isEmpty then "~" else String.intercalate "," mt
+        if m == lg then "OK" else s!"DIFF trace model={m} ; SPEC C03:detectors-not-consulted-in-first-match-order"
+      | _ => "SPEC C01:no-result(" ++ goRes ++ ")"
     | ["ziplayout", hx] =>
       match unhex hx with
       | some raw => zipLayoutJudge raw goRes
